@@ -72,7 +72,9 @@ Definition reader_batches (mp : option Z) (ls : list L) : list (list L) :=
 Definition reader_mode (mp : option Z) : cfgmode :=
   match mp with
   | None => CfgLabel
-  | Some k => if k >? 1 then CfgLabel else CfgDefault          (* bus.py:555 config[labels] *)
+  | Some k => if k >? 1 then CfgLabel
+              else if reader_cfg_by_label then CfgLabel        (* config[label] *)
+              else CfgDefault                                  (* bus.py:555 as found: config[labels], a generator key *)
   end.
 
 (* ---------- the Bus ---------- *)
@@ -141,8 +143,10 @@ Definition loop_body (st : store) (labels : list L) (mp : option Z) (s : loopst)
                 else Err "StoreFileMutation"
             end
         end in
+      (* the dict at the moment next(store_reader) may raise: already updated (bus.py:602 as found) or not yet *)
+      let s_raise := if lru_update_after_read then s else s1 in
       match got with
-      | Err e => (Some e, s1)
+      | Err e => (Some e, s_raise)
       | Ok (frame, pending) =>
           (* if not self._loaded[idx]: array[idx] = frame; self._loaded[idx] = True; loaded_count += 1 *)
           let fresh := negb (nth idx (ls_loaded s) false) in
@@ -293,13 +297,28 @@ Definition m_step (st : store) (b : mbus) (o : op) : obs * store * mbus * list (
   | OKeys _ => (ObLabels L F (mb_labels b), st, b, [])
   | OStatus _ => (ObFlags L F (mb_loaded b), st, b, [])
   | OGet _ l =>
-      (* return self._series.__getitem__(key): no cache update *)
       match find_idx l (mb_labels b) with
       | None => (ObUnit L F, st, b, [])
-      | Some i => (ObSlot L F (match nth_error (mb_slots b) i with Some s => s | None => None end), st, b, [])
+      | Some i =>
+          if get_loads then                                       (* return self._extract_loc(key) *)
+            let '(r, b', lg) := m_select st b (KLabel L l) false in (r, st, b', lg)
+          else                                                    (* bus.py:935 as found: self._series.__getitem__(key) *)
+            (ObSlot L F (match nth_error (mb_slots b) i with Some s => s | None => None end), st, b, [])
       end
-  | OIterElem _ => (ObSlots L F (mb_slots b), st, b, [])             (* yield from self._series.values *)
-  | OIterItems _ => (ObItems L F (combine (mb_labels b) (mb_slots b)), st, b, [])
+  | OIterElem _ =>
+      if iter_element_loads then                                  (* yield from self.values *)
+        match m_values st b with
+        | (Some e, _, b', lg) => (ObErr L F e, st, b', lg)
+        | (None, vs, b', lg) => (ObSlots L F vs, st, b', lg)
+        end
+      else (ObSlots L F (mb_slots b), st, b, [])                  (* bus.py:704 as found: yield from self._series.values *)
+  | OIterItems _ =>
+      if iter_element_items_loads then                            (* yield from self.items() *)
+        match m_values st b with
+        | (Some e, _, b', lg) => (ObErr L F e, st, b', lg)
+        | (None, vs, b', lg) => (ObItems L F (combine (mb_labels b) vs), st, b', lg)
+        end
+      else (ObItems L F (combine (mb_labels b) (mb_slots b)), st, b, [])
   | ODrop _ k into =>
       match resolve (mb_labels b) k with
       | Err e => (ObErr L F e, st, b, [])
@@ -326,7 +345,15 @@ Definition m_step (st : store) (b : mbus) (o : op) : obs * store * mbus * list (
           let lv := combine (mb_labels b) vs in
           let kv := map (fun x => (x, match snd x with Some f => fkey f | None => 0 end)) lv in
           let s := sort_by_key asc kv in
-          let '(r, b'') := m_bus_result b' (map fst s) (map snd s) into in (r, st, b'', lg)
+          if sort_values_from_own_series then
+            (* series = self._series.reindex(sorted index): the slots the Bus holds NOW, in sorted order *)
+            match find_all L leqb (map fst s) (mb_labels b') with
+            | None => (ObErr L F "KeyError", st, b', lg)
+            | Some ps => let '(r, b'') := m_bus_result b' (map fst s) (slots_at (mb_slots b') ps) into in (r, st, b'', lg)
+            end
+          else
+            (* bus.py:1073-1085 as found: the Series of all Frames, loaded, goes to _derive *)
+            let '(r, b'') := m_bus_result b' (map fst s) (map snd s) into in (r, st, b'', lg)
       end
   | OFile _ f => (ObUnit L F, mk_store L F (st_content L F st) (st_recorded L F st) f, b, [])
   end.
